@@ -842,3 +842,52 @@ def run_generic(ctx: Ctx, inverse: bool = False) -> None:
                 return False, f"GenericSpatialTransform(transform={model!r}) is not the identity after construction"
             return True, ""
         _guard(ctx, "T67.generic", f"{model}", fI, f"transform={model!r}", thn)
+
+
+def run_linked_linear(ctx: Ctx) -> None:
+    """A transform linked to another one (link_) evaluates exactly the parameters of its counterpart, with the counterpart's meaning."""
+    prog = ctx.prog
+    P = "deepali.spatial.parametric"
+    fL = prog.func(P, "ParametricTransform.link_")
+    fH = prog.func(P, "ParametricTransform.has_parameters")
+    ctx.fn(fL)
+    ctx.fn(fH)
+    ctx.rule("T6x.linked-linear", "for every elementary linear model: a second instance linked to the first (t2.link_(t1)) — t1 with optimisable "
+                                  "(Parameter, squashed) or fixed parameters — has the same matrix and point map as t1, right after linking, after "
+                                  "an in-place (optimiser-style) change of t1's parameters followed by a call, and after data_(new) on t1; "
+                                  "unlink_() + data_ of t1's values gives the same map again")
+    for name, dims in LINEAR[:7]:
+        ci = _linear_cls(ctx, name)
+        for D in dims[-1:]:
+            for kind in ("parameter", "buffer"):
+                def th(name=name, D=D, kind=kind):
+                    env = LEnv(ctx, D, symbolic_grid=False)
+                    it = env.it
+                    t1 = _mk_linear(env, name, kind)
+                    if kind == "buffer":
+                        env.set_params(t1)
+                    else:
+                        _change(env, t1, "inplace")
+                    t2 = _mk_linear(env, name, "buffer")
+                    it.method(t2, "link_", t1)
+                    x = STensor.symbols("x", [1, 2, D])
+
+                    def agree(when):
+                        it.method(t1, "update")
+                        it.method(t2, "update")
+                        if not teq(it.method(t2, "tensor"), it.method(t1, "tensor")):
+                            return f"{name} ({kind} parameters): {when} the linked transform's matrix differs from its counterpart's"
+                        if not teq(it.call_value(t2, [x], {}), it.call_value(t1, [x], {})):
+                            return f"{name} ({kind} parameters): {when} the linked transform maps points differently from its counterpart"
+                        return ""
+                    why = agree("right after link_()")
+                    if why:
+                        return False, why
+                    _change(env, t1, "inplace")
+                    why = agree("after an in-place change of the counterpart's parameters")
+                    if why:
+                        return False, why
+                    _change(env, t1, "replace")
+                    why = agree("after data_(new) on the counterpart")
+                    return (not why), why
+                _guard(ctx, "T6x.linked-linear", f"{name}:D={D}:{kind}", fL, f"class={name} D={D} params={kind} link_(other)", th)
